@@ -175,7 +175,8 @@ theorem termResizeTree_step (content : Id → Int → Int → Cell) (screen scre
     (hkeep : ∀ L C, 0 ≤ L → L < min root.rect.lines lines → 0 ≤ C → C < min root.rect.cols cols → screen' L C = screen L C)
     (h : termResizeTree t lines cols = .ok t') :
     TInv content screen' t' ∧ RootStep t t' ∧ t'.wins.size = t.wins.size ∧
-      ∃ w', t'.wins[0]? = some w' ∧ w'.rect.lines = lines ∧ w'.rect.cols = cols := by
+      (∃ w', t'.wins[0]? = some w' ∧ w'.rect.lines = lines ∧ w'.rect.cols = cols) ∧
+      (ParentListed t → ParentListed t') := by
   have hok := hI.ok
   obtain ⟨rw0, hrw0, hrf, hrr, hrp, hrt, hrl⟩ := hok.rootWin.ex
   rw [hroot] at hrw0; cases hrw0
@@ -273,7 +274,15 @@ theorem termResizeTree_step (content : Id → Int → Int → Cell) (screen scre
     refine ⟨⟨treeOk_congr_core hcore hok1, ordered_congr hwins hord1, rootOk_congr_core (hcore 0) hro1,
       rootsPositive_congr_core hcore hpos1, b2, b3 (a3 (by rw [h1_root]; exact hI.dinv)), ?_⟩,
       (hstep1.trans a4).trans b4, by rw [hwins, h1_size],
-      ⟨w1, by rw [hwins]; exact h1_0, by rw [hw1r]; exact hgeomf.2.2.1, by rw [hw1r]; exact hgeomf.2.2.2⟩⟩
+      ⟨w1, by rw [hwins]; exact h1_0, by rw [hw1r]; exact hgeomf.2.2.1, by rw [hw1r]; exact hgeomf.2.2.2⟩,
+      fun hpl => parentListed_congr hwins (by
+        intro x wb q hwb hq
+        obtain ⟨w, hw, _, hp2, _⟩ := hrel x wb hwb
+        obtain ⟨qw, hqw, hm⟩ := hpl x w q hw (by rw [← hp2]; exact hq)
+        obtain ⟨qwb, hqwb⟩ := hrel' q qw hqw
+        obtain ⟨qw2, hqw2, _, _, _, _, hcs, _⟩ := hrel q qwb hqwb
+        rw [hqw] at hqw2; cases hqw2
+        exact ⟨qwb, hqwb, by rw [hcs]; exact hm⟩)⟩
     intro L C w l c ho
     rw [ownerAt_congr t' t1 hwins] at ho
     obtain ⟨wr, hwr, hL0, hL1, hC0, hC1⟩ := ownerAt_some_memb t1 hro1 L C _ ho
